@@ -47,6 +47,7 @@ type Contract struct {
 	Loops      map[int]*LoopSpec
 	IsIface    bool
 	Lets       [][2]string // let name = expr (evaluated at entry)
+	Maintain   []*Clause   // two-state facts (relative to entry) re-proved after every call and then assumed
 	Pure       bool
 	Private    string // expression: object whose memory unknown callees cannot reach
 	SiteProps  []string // properties of field invariants whose store sites this function contains
@@ -71,10 +72,10 @@ func (c *Contract) hasMode(m string) bool {
 var clauseKeywords = map[string]bool{
 	"func": true, "props": true, "mode": true, "requires": true, "ensures": true,
 	"assigns": true, "decreases": true, "loop": true, "let": true, "global": true,
-	"lemma": true, "pure": true, "fieldinv": true, "private": true, "table": true, "immutable": true,
+	"lemma": true, "pure": true, "fieldinv": true, "private": true, "table": true, "immutable": true, "maintain": true,
 }
 
-var nameRe = regexp.MustCompile(`^([A-Za-z_][A-Za-z0-9_\[\]\.\-]*)(\{[A-Z0-9, ]+\})?:\s*(.*)$`)
+var nameRe = regexp.MustCompile(`^([A-Za-z_][A-Za-z0-9_\[\]\.\-]*)(\{[A-Z0-9!, ]+\})?:\s*(.*)$`)
 
 // GlobalFact is a `global` declaration in a contract file: sentinel globals.
 type GlobalFact struct {
@@ -210,6 +211,10 @@ func parseContractFile(path, pkgPath string) (*ContractFile, error) {
 				}
 				cur.Lets = append(cur.Lets, [2]string{strings.TrimSpace(p[0]), strings.TrimSpace(p[1])})
 				last = &cur.Lets[len(cur.Lets)-1][1]
+			case "maintain":
+				cl := mkClause("maintain", rest, base, ln, len(cur.Maintain))
+				cur.Maintain = append(cur.Maintain, cl)
+				last = &cl.Expr
 			case "requires", "ensures":
 				cl := mkClause(kw, rest, base, ln, len(cur.Requires)+len(cur.Ensures))
 				if kw == "requires" {
